@@ -114,6 +114,29 @@ def apalache(specdir, module, args, timeout=900, name=None):
     return 'failed', out[-1500:]
 
 
+def tlapm(specdir, module, timeout=900, name=None):
+    """Run the TLA+ proof system on a scratch copy of specdir; returns (proved, total, output); proved = -1 if the tool failed to run."""
+    import re
+    d = subdir('tlapm-%s-%d' % (name or module, int(time.time() * 1000) % 10 ** 9))
+    for f in os.listdir(specdir):
+        if f.endswith('.tla'):
+            shutil.copy(os.path.join(specdir, f), d)
+    cmd = ['timeout', str(timeout), 'tlapm', '--threads', str(NCPU), module + '.tla']
+    try:
+        p = subprocess.run(cmd, cwd=d, stdout=subprocess.PIPE, stderr=subprocess.STDOUT, text=True)
+    except FileNotFoundError:
+        return -1, 0, 'tlapm not found'
+    out = p.stdout
+    shutil.rmtree(os.path.join(d, '.tlacache'), ignore_errors=True)
+    m = re.search(r'All (\d+) obligations? proved', out)
+    if m:
+        return int(m.group(1)), int(m.group(1)), out
+    m = re.search(r'(\d+)/(\d+) obligations failed', out)
+    if m:
+        return int(m.group(2)) - int(m.group(1)), int(m.group(2)), out
+    return -1, 0, out[-1500:]
+
+
 def cfg(constants, spec='Spec', invariants=(), properties=(), view=None, postcondition=None, constraint=None, extra=''):
     lines = ['CONSTANTS']
     for k, v in constants.items():
